@@ -207,8 +207,15 @@ def gen_behaviour(r, profile, geom, bid, cfg, length=None, safe_first=False):
             if x < 0.22:
                 cnt = g["max_batch"] + r.choice([1, 2])
                 ops.append({"op": "batch", "t": t, "es": [[ids.next(), 10] for _ in range(cnt)], "bad": True})
-            elif x < 0.40 and geom == "tiny":
+            elif x < 0.31 and geom == "tiny":
                 ops.append({"op": "batch", "t": t, "es": [[ids.next(), 7000] for _ in range(3)], "bad": True})
+            elif x < 0.40 and geom == "tiny":
+                # ONE entry over the allocation limit, standing behind entries that already make the planner rotate
+                # (total and count stay within the batch limits): must be rejected before anything is planned
+                lead = [[ids.next(), r.choice([1500, 1792, 1000, 300])] for _ in range(r.choice([1, 2, 2, 3]))]
+                big = [[ids.next(), g["max_alloc"] - PREFIX + r.choice([1, 2, 100])]]
+                trail = [[ids.next(), r.choice([8, 100])]] if r.random() < 0.4 else []
+                ops.append({"op": "batch", "t": t, "es": lead + big + trail, "bad": True})
             elif x < 0.62:
                 ops.append({"op": "append", "t": t, "id": ids.next(), "size": g["max_alloc"] - PREFIX + r.choice([1, 2, 500]),
                             "bad": True} if geom == "tiny" else
@@ -231,6 +238,15 @@ def gen_behaviour(r, profile, geom, bid, cfg, length=None, safe_first=False):
             else:
                 ops.append({"op": "append", "t": t, "id": es[0][0], "size": es[0][1], "bad": True, "maybe": True})
             ops.append({"op": "clear_fault", "bad": True})
+            if r.random() < 0.5:
+                # a successful append of exactly the failed call's first entry size lands on the slot the cleanup
+                # invalidated: nothing of the failed call may come back, now or after a restart
+                e2 = [ids.next(), es[0][1]]
+                ops.append({"op": "append", "t": t, "id": e2[0], "size": e2[1]})
+                m.note(t, e2[1])
+                appended[t].append(e2[1])
+                if r.random() < 0.6:
+                    ops.append({"op": "reopen", "i": 0, "proc": r.choice(["same", "new"]), "ro": True})
         elif k == "reopen":
             o = {"op": "reopen", "i": 0, "proc": r.choice(["same", "same", "new"]), "ro": True}
             if profile == "marker":
